@@ -135,6 +135,11 @@ func daemonMain(self string) {
 	default:
 		daemon.Done()
 	}
+	if os.Getenv("C20_STOP_AFTER_DONE") != "" {
+		// ... and is stopped right after Done() (job control again, or a supervisor that freezes what it has started until
+		// the rest of the system is up); the harness continues it once Launch has returned
+		syscall.Kill(os.Getpid(), syscall.SIGSTOP)
+	}
 	if bin := os.Getenv("C20_EXEC_AFTER_DONE"); bin != "" {
 		// a wrapper daemon: once it has reported, it turns into the real service - same process, another program
 		os.WriteFile(filepath.Join(dir, fmt.Sprintf("after-done.%d", os.Getpid())), []byte("x"), 0o644)
@@ -202,6 +207,7 @@ type kase struct {
 	shortLived       bool // the handler returns right after Done(): Launch still reports the pid it ran under
 	ignoresSigint    bool // the caller child runs with SIGINT ignored (nohup, background job)
 	rendezvous       bool // concurrent launches only: every daemon waits (up to 3 s) for its peers to have started before it calls Done()
+	stopAfterDone    bool // the daemon stops itself (SIGSTOP) right after Done(); it is continued once Launch has returned
 	stopCont         bool // the daemon is stopped and continued (SIGSTOP / SIGCONT) a few times before it reaches Done()
 	detach           int  // before Done() the handler calls 1: setsid(), 2: setpgid(0, 0)
 	execs            bool // after Done() the handler replaces its process image (syscall.Exec) and lives on as another program
@@ -254,6 +260,9 @@ func (k kase) String() string {
 	}
 	if k.stopCont {
 		s += " daemonIsStoppedAndContinuedBeforeDone"
+	}
+	if k.stopAfterDone {
+		s += " daemonIsStoppedRightAfterDone"
 	}
 	if k.detach > 0 {
 		s += []string{"", " handlerCallsSetsidBeforeDone", " handlerCallsSetpgidBeforeDone"}[k.detach]
@@ -320,6 +329,9 @@ func runCase(k kase) string {
 	}
 	env["C20_DONE_FROM"] = strconv.Itoa(k.doneFrom)
 	env["C20_DETACH"] = strconv.Itoa(k.detach)
+	if k.stopAfterDone {
+		env["C20_STOP_AFTER_DONE"] = "1"
+	}
 	if k.stopCont {
 		env["C20_STOPCONT"] = "1"
 		stopDone := make(chan struct{})
@@ -501,6 +513,9 @@ func runCase(k kase) string {
 		st, err := procStat(r.pid)
 		if err != nil || st.state == "Z" || st.state == "X" {
 			return fmt.Sprintf("launch #%d: the daemon (pid %d) is not running after Launch returned (state %q, err %v)", i, r.pid, st.state, err)
+		}
+		if k.stopAfterDone {
+			syscall.Kill(r.pid, syscall.SIGCONT) // it was alive (stopped counts): now it may go on
 		}
 		if st.ppid == r.callerPid && !k.childCaller {
 			return fmt.Sprintf("launch #%d: the daemon (pid %d) is a child of the caller (pid %d)", i, r.pid, r.callerPid)
@@ -735,6 +750,9 @@ func TestGenerated(t *testing.T) {
 		k.rendezvous = k.concurrent > 1 && !k.nested && rapid.IntRange(0, 3).Draw(t, "daemonsWaitForEachOther") == 0
 		k.detach = rapid.SampledFrom([]int{0, 0, 0, 1, 2}).Draw(t, "handlerDetachesBeforeDone")
 		k.stopCont = !k.nested && rapid.IntRange(0, 5).Draw(t, "daemonStoppedAndContinued") == 0
+		// (not for a daemon that has put itself into a process group of its own: a stopped member of a group that becomes
+		// orphaned when the intermediate process exits is hung up by the kernel - its own doing, not the launch's)
+		k.stopAfterDone = !k.nested && !k.shortLived && k.detach == 0 && rapid.IntRange(0, 5).Draw(t, "daemonStoppedAfterDone") == 0
 		k.execs = !k.shortLived && k.doneFrom == 0 && rapid.IntRange(0, 4).Draw(t, "daemonExecsAfterDone") == 0
 		k.childOnly = !k.afterFailed && rapid.IntRange(0, 4).Draw(t, "handlerKnownToTheReexecutedProcessOnly") == 0
 		msg := runCase(k)
@@ -780,6 +798,9 @@ func TestGenerated(t *testing.T) {
 		}
 		if k.stopCont {
 			ev.Label("daemon_stopped_and_continued_before_Done")
+		}
+		if k.stopAfterDone {
+			ev.Label("daemon_stopped_right_after_Done")
 		}
 		if k.rendezvous && k.concurrent > 1 {
 			ev.Label("daemons_wait_for_each_other_before_Done")
